@@ -429,6 +429,17 @@ impl Ctx {
         M: Fn(u64) -> Option<C> + Sync,
         F: Fn(&C) -> Verdict + Sync,
     {
+        self.run_groups(stage, n, exhaustive, |i| make(i).into_iter().collect::<Vec<C>>(), check)
+    }
+
+    /// Like `run_indexed_mode`, but every index denotes a group of cases (e.g. all fault points
+    /// of one document and chunking); every case of the group is one evaluation.
+    pub fn run_groups<C, M, F>(&self, stage: &str, n: u64, exhaustive: bool, make: M, check: F)
+    where
+        C: Serialize + Send,
+        M: Fn(u64) -> Vec<C> + Sync,
+        F: Fn(&C) -> Verdict + Sync,
+    {
         let t0 = Instant::now();
         let next = AtomicU64::new(0);
         let block: u64 = (n / (self.threads as u64 * 64)).clamp(1, 1 << 14);
@@ -444,12 +455,12 @@ impl Ctx {
                         }
                         let hi = (lo + block).min(n);
                         let mut stop = false;
-                        for i in lo..hi {
-                            if let Some(case) = make(i) {
+                        'outer: for i in lo..hi {
+                            for case in make(i) {
                                 let v = guarded(|| check(&case));
                                 if acc.record(&case, v) && acc.st.fails.len() >= 4 {
                                     stop = true;
-                                    break;
+                                    break 'outer;
                                 }
                             }
                         }
